@@ -11,7 +11,8 @@
 (*   update            sets bits, marks the object dirty                   *)
 (*                     (+ stores the Dirty marker in the region iff        *)
 (*                      WriteDirtyThrough - the repair; the pinned code    *)
-(*                      does not)                                          *)
+(*                      does not; on EVERY call iff RemarkWhenDirty, also  *)
+(*                      through a stale view whose object is dirty)        *)
 (*   query_and_update  get_and_set_bit + update_num_bits_set(cached + new) *)
 (*                     (only while not dirty iff QauKeepsDirty - repair;   *)
 (*                      the pinned code overwrites a dirty count)          *)
@@ -30,7 +31,9 @@ EXTENDS Integers, FiniteSets, Sequences, TLC
 CONSTANTS FltIds, MemIds, Cfgs, Items, MaxCalls,
           WriteDirtyThrough,   \* TRUE: repaired internal_update; FALSE: pinned code
           QauKeepsDirty,       \* TRUE: repaired internal_query_and_update; FALSE: pinned code
-          RoCheckSetOps        \* TRUE: repaired union_with/intersect/invert; FALSE: pinned code
+          RoCheckSetOps,       \* TRUE: repaired union_with/intersect/invert; FALSE: pinned code
+          RemarkWhenDirty      \* TRUE: update stores the Dirty marker on EVERY call (the code); FALSE: only on the
+                               \* clean -> dirty transition of the object (seeded regression, negative config)
 VARIABLES flt, mem, out, book, stored
 dvars == <<flt, mem, out, book, stored>>
 
@@ -73,10 +76,10 @@ InitMem(f, m, c) ==
   /\ out' = C!Ok
 \* internal_update
 Update(f, x) ==
-  /\ Fresh(f)
+  /\ f \in Live                 \* also through a stale view (contract header)
   /\ IF flt[f].ro THEN Throw
      ELSE /\ Commit(f, Bits(f) \cup x, Ins(f) \cup {x}, book[f].cached, TRUE,
-                    IF WriteDirtyThrough THEN Dirty ELSE Keep)
+                    IF WriteDirtyThrough /\ (RemarkWhenDirty \/ ~book[f].dirty) THEN Dirty ELSE Keep)
           /\ out' = C!Ok
 \* internal_query_and_update (no is_empty short-cut here)
 QueryUpdate(f, x) ==
